@@ -6,6 +6,7 @@ import SJ.Proofs.DeleteDoc
 import SJ.Proofs.EditHistoryDelete
 import SJ.Proofs.GoIter
 import SJ.Proofs.GoSet
+import SJ.Proofs.GoDelete
 /-
 C14 — Deletion removes exactly the selected members and all APIs agree after it.
 -/
@@ -223,5 +224,37 @@ theorem C14_gap_code_follows_source (pj : PJ) (i dst : Iter) (hl : i.lim ≤ pj.
       (i.setNull pj)) := by
   obtain ⟨h1, _, h3, h4, h5⟩ := go_iter_source_tie pj i dst hl fuel hf
   exact ⟨h1, h3, h4, h5, (go_set_source_tie pj i hl fuel).2.2.2.2.2⟩
+
+open SJ.GoSem SJ.Generated SJ.GoIter SJ.GoObject SJ.GoDelete in
+/-- **Source tie** (DESIGN §6.3). `Array.FirstType`, `Array.ForEach`, `Array.DeleteElems`, `Object.ForEach` and
+    `Object.DeleteElems` (`parsed_array.go`, `parsed_object.go`) are printed from /repo as syntax trees on every run; the
+    callback is a parameter (answers given in advance, arguments logged). Their meaning under `GoSem.exec` is the model's
+    `View.firstType`, `arrForEach`, `forEach`, `arrDeleteElems`, `deleteElems` — the functions `C14_history`,
+    `C14_gap_skipped` and `C12_forEach` are about: same callbacks in the same order with the same iterators, the same
+    words overwritten with the same NOP distances, the same result, a panic exactly when the model panics; never stuck,
+    never out of fuel (`2·lim+7`). For the two `DeleteElems` the tie is stated for views in which every element ends
+    inside the view (`EndsInside`; every view the API hands out): the Go code writes through the view and panics at its
+    end where the model, which checks the array, writes on (`arrDeleteElems_exact` / `objDeleteElems_exact` state the
+    outcome without the premise; counterexample kept in `Proofs/GoDelete`). -/
+theorem C14_delete_code_follows_source (pj : PJ) (hb : BufOK pj) (v : View) (hl : v.lim ≤ pj.tape.size) (ks : List Bytes)
+    (q : Nat → Bool) (N : Nat) (hN : v.lim - v.off ≤ N) (fuel mf : Nat) (hmf : v.lim - v.off + 1 ≤ mf)
+    (hf : 2 * v.lim + 7 ≤ fuel) :
+    SimType pj (runFun goFuns goArray_FirstType fuel ⟨arrStore pj v [], pj.tape⟩) (View.firstType pj v) ∧
+    SimFE pj (runFun goFuns goArray_ForEach fuel ⟨arrStore pj v [("fn.log", .ints [])], pj.tape⟩)
+      (View.arrForEach pj v.iter #[] mf) ∧
+    SimOFE pj (runFun goFuns goObject_ForEach fuel ⟨objStore pj v ks [("fn.log", .ints [])], pj.tape⟩)
+      (View.forEach pj ks v.iter 0 #[] mf) ∧
+    (EndsInside v.lim pj.tape → v.lim < 2^56 →
+      SimDel N q (runFun goFuns goArray_DeleteElems fuel
+          ⟨arrStore pj v [("fn.results", .bools (answers N q)), ("fn.log", .ints [])], pj.tape⟩)
+        (View.arrDeleteElems pj q v.iter 0 #[] mf) ∧
+      SimODel true 0 q [] (runFun goFuns goObject_DeleteElems fuel
+          ⟨objStore pj v ks [("fn==nil", .bool true)], pj.tape⟩)
+        (View.deleteElems pj (fun _ _ => true) ks v.iter 0 #[] mf) ∧
+      SimODel false N q [] (runFun goFuns goObject_DeleteElems fuel
+          ⟨objStore pj v ks [("fn==nil", .bool false), ("fn.results", .bools (answers N q)), ("fn.log", .ints [])],
+            pj.tape⟩)
+        (View.deleteElems pj (fun k _ => q k) ks v.iter 0 #[] mf)) :=
+  go_delete_source_tie pj hb v hl ks q N hN fuel mf hmf hf
 
 end SJ.Properties.C14
